@@ -46,6 +46,8 @@ Ents == [
   inner  |-> E("s_pub", "public", TRUE, "proc"),         \* internal procedure of s_pub
   g_pub  |-> E("m", "public", TRUE, "interface"),
   ai_prv |-> E("m", "private", TRUE, "absint"),
+  nl_prv |-> E("s_prv", "public", TRUE, "namelist"),      \* namelist group of the private procedure
+  t_ext  |-> E("m", "public", TRUE, "type"),              \* public type that extends the private type t_prv (and inherits its binding)
   mpi    |-> E("m", "public", TRUE, "interface"),        \* interface of the separate module procedure mp, declared in m
   sm     |-> E("file", "public", TRUE, "submodule"),
   mp     |-> E("sm", "private", TRUE, "proc"),           \* separate module procedure implemented in the submodule
@@ -66,7 +68,7 @@ Selected(e) ==
   IF e \in {"file", "m", "sm"} THEN TRUE
   ELSE LET x == Ents[e].parent IN
        /\ Selected(x)
-       /\ Ents[e].perm \in D(x)
+       /\ (Ents[e].kind = "namelist" \/ Ents[e].perm \in D(x))      \* a namelist group of a procedure has no accessibility of its own
        /\ (opt.hide_undoc => Ents[e].doc)
        /\ (Ents[x].kind = "proc" => opt.proc_internals)
 
